@@ -187,8 +187,8 @@ Fixpoint search_loop (fuel : nat) (h : heap) (v : view) (slm : slmode) (vol pare
             | Some (NFile _ _ _ _) => if last then ret EFileExists else ret ENotADirectory
             | Some (NSym link _) =>
                 let slcount' := S slcount in
-                if Nat.ltb slCountMax slcount' then ret ETooManySymlinks
-                else if last && slmode_eqb slm SlLstat then ret EFileExists
+                if last && slmode_eqb slm SlLstat then ret EFileExists
+                else if Nat.ltb slCountMax slcount' then ret ETooManySymlinks
                 else
                   let saved' := match saved with
                                 | None => if last && slmode_eqb slm SlStat then Some pi1 else None
